@@ -41,6 +41,8 @@ mod protocol;
 mod python;
 mod stack;
 mod state;
+#[cfg(pickle_fuzzer_verif)]
+pub mod verif;
 
 pub use cli::Cli;
 pub use generator::Generator;
